@@ -1,7 +1,7 @@
 (* C14 - the writer -> lexer -> parser chain of modified-attributes.conf rests on C17's round-trip theorem
    (Cw/CwParseProofs.v: cw_values_roundtrip = C17_values; Cw/CwStrProofs.v: cw_string_roundtrip). *)
 From Icv Require Import Base.Tac Facts.Facts_c17 Persist.PsValue Persist.PsModel Persist.PsValueProofs Persist.PsPopModel
-  Persist.PsText Cw.CwModel Cw.CwTxn Cw.CwStrProofs Cw.CwLexProofs Cw.CwParseProofs Cw.CwValuesProofs.
+  Persist.PsText Cw.CwModel Cw.CwTxn Cw.CwStrProofs Cw.CwLexProofs Cw.CwParseProofs Cw.CwValuesProofs Cw.CwKeywordProofs.
 From Coq Require Import NArith.
 Local Open Scope N_scope.
 
@@ -293,17 +293,51 @@ Proof.
   rewrite (proj2 (ps_pop_reload_text fe now running bs _ Hall E)). reflexivity.
 Qed.
 
-(* ---------------------------------------------------------------- the keyword keys: refutation witnesses *)
+(* ---------------------------------------------------------------- keys that the lexer reads as keywords *)
 Definition ps_k_in : ps_key := [105; 110].
 Definition ps_k_debugger : ps_key := [100; 101; 98; 117; 103; 103; 101; 114].
 
-(* a dictionary key `in` (or `debugger`) - at any depth of a modified attribute's value - is written bare and read
-   back as a keyword: the literal does not compile, hence the whole file does not *)
-Lemma ps_keyword_key_refuted :
-  ps_text_codec (PsDict [(ps_k_in, PsNum 1 0)]) = None /\
-  ps_text_codec (PsArr [PsDict [([97], PsDict [(ps_k_debugger, PsEmpty)])]]) = None /\
-  ps_file_parse [ {| ps_b_name := [104]; ps_b_lines := [([118; 97; 114; 115; 46; 120], PsStr [111; 107])]; ps_b_version := 5 |};
-                  {| ps_b_name := [105]; ps_b_lines := [([118; 97; 114; 115; 46; 120], PsDict [(ps_k_in, PsNum 1 0)])]; ps_b_version := 7 |} ] = None.
+(* GENERAL over the regenerated keyword lists (this is the defect modattr-keyword-key as long as such a key exists): a
+   dictionary key that the writer leaves bare and the lexer reads as a keyword makes the literal - hence the whole file -
+   fail to compile *)
+Theorem ps_keyword_key_breaks k x : cw_key_lexes k = false -> ps_txt_ok x -> ps_text_codec (PsDict [(k, x)]) = None.
+Proof.
+  intros Hk Hx. destruct (ps_value_roundtrip x Hx) as (W & c & E & Q).
+  unfold ps_text_codec, ps_text_of. rewrite ps_src_mode_match. cbn [ps_to_cw].
+  rewrite cw_values_roundtrip by (cbn; split; [exact W | exact I]).
+  cbn [cw_expect_value cw_expect_entries]. rewrite Hk. reflexivity.
+Qed.
+
+(* the premise of ps_txt_ok on keys is VACUOUS for the source as it is (the writer knows every lexer keyword, fix 918cf68:
+   Cw/CwKeywordProofs.cw_key_lexes_all over the regenerated lists) *)
+Fixpoint ps_plain (v : ps_value) : Prop :=
+  match v with
+  | PsNum m k => ps_num_ok m k
+  | PsArr l => (fix go (l : list ps_value) : Prop := match l with [] => True | x :: t => ps_plain x /\ go t end) l
+  | PsDict d => (fix go (d : ps_dict) : Prop := match d with [] => True | (_, x) :: t => ps_plain x /\ go t end) d
+  | PsObj _ _ => False
+  | _ => True
+  end.
+
+Lemma ps_plain_txt_ok : forall v, ps_plain v -> ps_txt_ok v.
+Proof.
+  induction v using ps_value_ind'; cbn [ps_plain ps_txt_ok]; try tauto.
+  - intros Hp. induction H as [|x l Hx Hl IH]; [exact I|]. destruct Hp as [Hp1 Hp2]. split; [apply Hx; exact Hp1 | apply IH; exact Hp2].
+  - intros Hp. induction H as [|[k x] d Hx Hd IH]; [exact I|]. destruct Hp as [Hp1 Hp2].
+    split; [apply cw_key_lexes_all|]. split; [apply Hx; exact Hp1 | apply IH; exact Hp2].
+Qed.
+
+(* THE CODEC IS THE IDENTITY for ANY keys - `in`, `debugger` included *)
+Theorem ps_text_codec_id_src v : ps_plain v -> ps_text_codec v = Some v.
+Proof. intros H. apply ps_text_codec_id. apply ps_plain_txt_ok. exact H. Qed.
+
+(* the witnesses of the former finding: they come back, and the two-object file compiles to itself *)
+Lemma ps_keyword_key_fixed :
+  ps_text_codec (PsDict [(ps_k_in, PsNum 1 0)]) = Some (PsDict [(ps_k_in, PsNum 1 0)]) /\
+  ps_text_codec (PsArr [PsDict [([97], PsDict [(ps_k_debugger, PsEmpty)])]]) = Some (PsArr [PsDict [([97], PsDict [(ps_k_debugger, PsEmpty)])]]) /\
+  (let f := [ {| ps_b_name := [104]; ps_b_lines := [([118; 97; 114; 115; 46; 120], PsStr [111; 107])]; ps_b_version := 5 |};
+              {| ps_b_name := [105]; ps_b_lines := [([118; 97; 114; 115; 46; 120], PsDict [(ps_k_in, PsNum 1 0)])]; ps_b_version := 7 |} ] in
+   ps_file_parse f = Some f).
 Proof. vm_compute. repeat split; reflexivity. Qed.
 
 (* ... while the empty key, keys with dots, quotes, line breaks, NUL, leading digits, writer keywords and UTF-8 bytes
